@@ -18,9 +18,10 @@ Conses == {"for", "compr", "dictcompr", "sortedkey", "minkey", "mapf", "filterf"
 Vias == {"name", "alias", "box"}
 Exits == {"attempt", "attempt_outer", "exhaust", "break", "return", "error"}
 MutsOf(kind) ==
-    IF kind = "list" THEN {"append", "extend", "insert", "pop", "remove", "clear", "setitem", "augadd", "augitem"}
-    ELSE IF kind = "set" THEN {"add", "remove", "discard", "spop", "clear", "supdate"}
-    ELSE {"setnew", "setold", "pop", "setdefault", "update", "clear", "augitem"}
+    \* (the last ones of each line change nothing: a mutating operation is refused all the same)
+    IF kind = "list" THEN {"append", "extend", "insert", "pop", "remove", "clear", "setitem", "augadd", "augitem", "extend0", "augadd0"}
+    ELSE IF kind = "set" THEN {"add", "remove", "discard", "spop", "clear", "supdate", "discard0", "supdate0", "addold"}
+    ELSE {"setnew", "setold", "pop", "setdefault", "update", "clear", "augitem", "setdefault_old", "popdef0", "update0"}
 
 K_a == <<97>>
 K_b == <<98>>
@@ -46,12 +47,17 @@ Mut(kind, mut, via) ==
          ELSE IF mut = "clear" THEN SExpr(AMCall(T, "clear", <<>>))
          ELSE IF mut = "setitem" THEN SAssign(TIndex(T, AInt(0)), AInt(9))
          ELSE IF mut = "augadd" THEN SAug("+", PathT(via), AList(<<AInt(9)>>))
+         ELSE IF mut = "extend0" THEN SExpr(AMCall(T, "extend", <<AList(<<>>)>>))
+         ELSE IF mut = "augadd0" THEN SAug("+", PathT(via), AList(<<>>))
          ELSE SAug("+", TIndex(T, AInt(0)), AInt(1)))
     ELSE IF kind = "set" THEN
         (IF mut = "add" THEN SExpr(AMCall(T, "add", <<AInt(9)>>))
          ELSE IF mut = "remove" THEN SExpr(AMCall(T, "remove", <<AInt(2)>>))
          ELSE IF mut = "discard" THEN SExpr(AMCall(T, "discard", <<AInt(2)>>))
          ELSE IF mut = "spop" THEN SExpr(AMCall(T, "pop", <<>>))
+         ELSE IF mut = "discard0" THEN SExpr(AMCall(T, "discard", <<AInt(7)>>))
+         ELSE IF mut = "supdate0" THEN SExpr(AMCall(T, "update", <<AList(<<>>)>>))
+         ELSE IF mut = "addold" THEN SExpr(AMCall(T, "add", <<AInt(2)>>))
          ELSE IF mut = "clear" THEN SExpr(AMCall(T, "clear", <<>>))
          ELSE SExpr(AMCall(T, "update", <<AList(<<AInt(8), AInt(9)>>)>>)))
     ELSE
@@ -60,6 +66,9 @@ Mut(kind, mut, via) ==
          ELSE IF mut = "pop" THEN SExpr(AMCall(T, "pop", <<AStr(K_b)>>))
          ELSE IF mut = "setdefault" THEN SExpr(AMCall(T, "setdefault", <<AStr(K_z), AInt(9)>>))
          ELSE IF mut = "update" THEN SExpr(AMCall(T, "update", <<ADict(<<AStr(K_z)>>, <<AInt(9)>>)>>))
+         ELSE IF mut = "setdefault_old" THEN SExpr(AMCall(T, "setdefault", <<AStr(K_a), AInt(9)>>))
+         ELSE IF mut = "popdef0" THEN SExpr(AMCall(T, "pop", <<AStr(K_z), AInt(0)>>))
+         ELSE IF mut = "update0" THEN SExpr(AMCall(T, "update", <<ADict(<<>>, <<>>)>>))
          ELSE IF mut = "clear" THEN SExpr(AMCall(T, "clear", <<>>))
          ELSE SAug("+", TIndex(T, AStr(K_a)), AInt(1)))
 
